@@ -22,6 +22,10 @@ def run(chk, repo, tier):
     n3 = arith.merge_rules(chk, repo, 'C03.R3')
     n3 += split_tensor_rules(chk, repo, 'C03.R3')
     n4 = arith.ordering_rules(chk, repo, 'C03.R4')
+    chk.rule('C03.R5', 'independence of site data: no list of site tensors / labels is built by repeating one mutable array; block '
+                       'arrays of sums can hold the entries of both operands (dtype not taken from one operand)')
+    n5 = arith.aliasing_rules(chk, repo, 'C03.R5') + arith.sum_dtype_rule(chk, repo, 'C03.R5')
+    chk.floor('C03.R5', n5, 3)
     chk.floor('C03.R1', n1, 7)
     chk.floor('C03.R2', n2, 14)
     chk.floor('C03.R3', n3, 20)
